@@ -507,8 +507,78 @@ fn heap_cases(em: &mut Emit, rng: &mut Rng, n: u64) {
     }
 }
 
+// ------------------------------------------------------------------ the Arc discipline itself
+
+/// Random sequences of clone / drop / allocate / append-through-make_mut steps on real
+/// `Arc<Vec<i64>>` handles, against the operation-level machine of `C05_any_interleaving`:
+/// after the sequence every live cell's owner count and payload must be the model's.  This ties
+/// the machine's reading of `Arc::clone`, `drop` and `Arc::make_mut` to std's.
+fn arc_ops(em: &mut Emit, rng: &mut Rng, n: u64) {
+    for _ in 0..n {
+        let npinned = 1 + rng.below(3) as usize;
+        // cells[i] = the handles to cell i; the first handle of the first npinned cells is pinned
+        let mut cells: Vec<Vec<Arc<Vec<i64>>>> = (0..npinned).map(|i| vec![Arc::new(vec![i as i64])]).collect();
+        let mut req = format!("(arcops {}", npinned);
+        let steps = 1 + rng.below(24);
+        for _ in 0..steps {
+            let free: Vec<usize> = (0..cells.len()).filter(|&i| cells[i].len() > if i < npinned { 1 } else { 0 }).collect();
+            let live: Vec<usize> = (0..cells.len()).filter(|&i| !cells[i].is_empty()).collect();
+            match rng.below(4) {
+                0 if !live.is_empty() => {
+                    let l = *rng.pick(&live);
+                    let h = cells[l][0].clone();
+                    cells[l].push(h);
+                    req.push_str(&format!(" (clone {})", l));
+                }
+                1 if !free.is_empty() => {
+                    let l = *rng.pick(&free);
+                    cells[l].pop();
+                    req.push_str(&format!(" (drop {})", l));
+                }
+                2 => {
+                    let k = rng.below(3) as usize;
+                    let p: Vec<i64> = (0..k).map(|_| rng.range(0, 9)).collect();
+                    req.push_str(&format!(" (alloc{})", p.iter().map(|z| format!(" {}", z)).collect::<String>()));
+                    cells.push(vec![Arc::new(p)]);
+                }
+                3 if !free.is_empty() => {
+                    let l = *rng.pick(&free);
+                    let mut h = cells[l].pop().unwrap();
+                    let before = Arc::as_ptr(&h);
+                    let k = rng.below(4) as usize;
+                    let p: Vec<i64> = (0..k).map(|_| rng.range(0, 9)).collect();
+                    *Arc::make_mut(&mut h) = p.clone();
+                    req.push_str(&format!(" (append {}{})", l, p.iter().map(|z| format!(" {}", z)).collect::<String>()));
+                    if Arc::as_ptr(&h) == before {
+                        cells[l].push(h);
+                    } else {
+                        cells.push(vec![h]);
+                    }
+                }
+                _ => {}
+            }
+        }
+        req.push(')');
+        let mut imp = String::from("(arc");
+        for (i, hs) in cells.iter().enumerate() {
+            if let Some(h) = hs.first() {
+                let same = hs.iter().all(|x| Arc::ptr_eq(x, h));
+                imp.push_str(&format!(
+                    " (cell {} {} (list{}))",
+                    i,
+                    if same { Arc::strong_count(h) as i64 } else { -1 },
+                    h.iter().map(|z| format!(" {}", z)).collect::<String>()
+                ));
+            }
+        }
+        imp.push(')');
+        em.case(&req, &imp, "nt=1;kind=arc-ops", &req);
+    }
+}
+
 pub fn run(em: &mut Emit, thorough: bool, seed: u64) {
     let mut rng = Rng::new(seed ^ 0xC05);
+    arc_ops(em, &mut rng, if thorough { 40_000 } else { 3_000 });
     heap_cases(em, &mut rng, if thorough { 60_000 } else { 4_000 });
     let nh = if thorough { 3000 } else { 120 };
     for h in 0..nh {
